@@ -31,6 +31,7 @@ import (
 	"github.com/youzan/ZanRedisDB/common"
 	"github.com/youzan/ZanRedisDB/node"
 	"github.com/youzan/ZanRedisDB/rockredis"
+	"github.com/youzan/ZanRedisDB/server"
 	"github.com/youzan/ZanRedisDB/syncerpb"
 	"zrverif/graph"
 	"zrverif/trace"
@@ -59,8 +60,11 @@ type syDrv struct {
 	pollMu   sync.RWMutex // held for writing while the receiver is stopped
 	stopPoll chan struct{}
 	pollWg   sync.WaitGroup
-	mreal    []int // model entry j = real entries mreal[j-1]+1 .. mreal[j]
-	restarts bool  // restart the receiver now and then
+	mreal    []int            // model entry j = real entries mreal[j-1]+1 .. mreal[j]
+	restarts bool             // restart the receiver now and then
+	multi    []*server.Server // -multi: the receiver is a 3-replica raft group (servers in this process)
+	plain    bool             // source without large payloads and APPENDs (long multi-replica runs)
+	snapFailed bool           // this receiver has seen a failing remote snapshot
 }
 
 func (d *syDrv) emit(m trace.M) {
@@ -85,7 +89,10 @@ func (d *syDrv) makeSource(n int) {
 		}
 		d.terms[i] = t
 		c := d.rng.Intn(20)
-		if i > 0 && d.kinds[i-1] == "set" && d.rng.Intn(3) == 0 {
+		if d.plain {
+			c = d.rng.Intn(14) // incr / lpush / set only
+		}
+		if i > 0 && d.kinds[i-1] == "set" && d.rng.Intn(3) == 0 && !d.plain {
 			c = 14 // a failing batchable write directly behind a batched one (same open write batch)
 		}
 		switch {
@@ -150,8 +157,20 @@ func (d *syDrv) entry(i int, corrupt bool) syncerpb.RaftLogData {
 		Term: d.terms[i-1], Index: uint64(i), RaftTimestamp: ts, Data: data}
 }
 
+// recvServer: the server deliveries go to (multi-replica: the current leader).
+func (d *syDrv) recvServer() *server.Server {
+	if d.multi == nil {
+		return d.cs.kv
+	}
+	L := ckLeaderOf(d.multi, 20*time.Second)
+	if L < 0 {
+		L = 0
+	}
+	return d.multi[L]
+}
+
 func (d *syDrv) nd() *node.KVNode {
-	n := d.cs.kv.GetNamespaceFromFullName("default-0")
+	n := d.recvServer().GetNamespaceFromFullName("default-0")
 	if n == nil {
 		return nil
 	}
@@ -248,7 +267,7 @@ func (d *syDrv) deliver(batch []int, bad int) {
 	}
 	// logged before the call: from here on the poller may see effects of these entries
 	d.emit(trace.M{"ev": "send", "batch": batch})
-	rsp, err := d.cs.kv.ApplyRaftReqs(context.Background(), &reqs)
+	rsp, err := d.recvServer().ApplyRaftReqs(context.Background(), &reqs)
 	code, msg := int32(0), ""
 	if rsp != nil {
 		code, msg = rsp.ErrCode, rsp.ErrMsg
@@ -288,6 +307,7 @@ func (d *syDrv) remoteSnapFail() {
 	if s+4 > d.n || d.eng != "pebble" {
 		return
 	}
+	d.snapFailed = true // a failed snapshot blocks further snapshots of this receiver for 5 minutes
 	idx := s + 1 + d.rng.Intn(3)
 	term := d.terms[idx-1]
 	fake := filepath.Join(d.base, fmt.Sprintf("fakesrc%d-%d", d.nseg, d.cnt["remote_snapshot_apply_failures"]))
@@ -319,6 +339,201 @@ func (d *syDrv) remoteSnapFail() {
 	d.emit(trace.M{"ev": "snapfail", "t": term, "i": idx, "c1": c1, "c2": c2})
 	d.count("remote_snapshot_apply_failures")
 	d.obs("snapfail")
+}
+
+// ------------------------------------------------------------------ multi-replica receiver
+
+func (d *syDrv) startCluster() error {
+	d.stopReceiver()
+	d.stopCluster()
+	d.nseg++
+	kvs, err := ckStartCluster(filepath.Join(d.base, "cluster"+strconv.Itoa(d.nseg)), d.eng, 3)
+	d.multi = kvs
+	if err != nil {
+		return err
+	}
+	if ckLeaderOf(kvs, 30*time.Second) < 0 {
+		return fmt.Errorf("no leader in the receiving raft group")
+	}
+	node.SetSyncerOnly(true)
+	d.emit(trace.M{"ev": "reset", "snapcount": 0, "eng": d.eng, "replicas": 3})
+	return nil
+}
+
+func (d *syDrv) stopCluster() {
+	for _, kv := range d.multi {
+		kv.Stop()
+	}
+	d.multi = nil
+}
+
+// replicaView: what one replica holds (position and a summary of the data).
+func (d *syDrv) replicaView(kv *server.Server) string {
+	n := kv.GetNamespaceFromFullName("default-0")
+	if n == nil {
+		return "none"
+	}
+	_, si, _ := n.Node.GetRemoteClusterSyncedRaft(syCluster)
+	st := n.Node.VerifSyncStore()
+	c, _ := st.KVGet([]byte("t:cnt"))
+	ll, _ := st.LLen([]byte("t:lst"))
+	k1, _ := st.KVGet([]byte("t:k1"))
+	k2, _ := st.KVGet([]byte("t:k2"))
+	k3, _ := st.KVGet([]byte("t:k3"))
+	return fmt.Sprintf("%d|%s|%d|%s|%s|%s", si, c, ll, k1, k2, k3)
+}
+
+// multiSequence: batches are delivered to the leader through ApplyRaftReqs while leadership is
+// transferred to another replica some hundred microseconds into the batch.  After every round
+// the group is left alone until all replicas hold the same; only that quiescent state is logged.
+func (d *syDrv) multiSequence(rounds, bsz int) error {
+	for r := 0; r < rounds; r++ {
+		L := ckLeaderOf(d.multi, 20*time.Second)
+		if L < 0 {
+			return fmt.Errorf("no leader")
+		}
+		nd := d.multi[L].GetNamespaceFromFullName("default-0").Node
+		_, si, _ := nd.GetRemoteClusterSyncedRaft(syCluster)
+		s := int(si)
+		if s+bsz > d.n {
+			break
+		}
+		var batch []int
+		var reqs syncerpb.RaftReqs
+		for i := s + 1; i <= s+bsz; i++ {
+			batch = append(batch, i)
+			reqs.RaftLog = append(reqs.RaftLog, d.entry(i, false))
+		}
+		to := (L + 1 + d.rng.Intn(2)) % 3
+		transfer := d.rng.Intn(5) > 0
+		delay := time.Duration(d.rng.Intn(3000)) * time.Microsecond
+		done := make(chan struct{})
+		go func() {
+			if transfer {
+				time.Sleep(delay)
+				nd.TransferLeadership(uint64(1 + to))
+			}
+			close(done)
+		}()
+		d.emit(trace.M{"ev": "send", "batch": batch})
+		rsp, err := d.multi[L].ApplyRaftReqs(context.Background(), &reqs)
+		<-done
+		code, msg := int32(0), ""
+		if rsp != nil {
+			code, msg = rsp.ErrCode, rsp.ErrMsg
+		}
+		if err != nil {
+			code, msg = -1, err.Error()
+		}
+		if len(msg) > 80 {
+			msg = msg[:80]
+		}
+		d.emit(trace.M{"ev": "deliver", "batch": batch, "bad": 0, "code": code, "msg": msg})
+		d.count("deliveries")
+		if transfer {
+			d.count("leader_transfers")
+		}
+		if code != 0 {
+			d.count("deliveries_cancelled")
+		}
+		// quiescence: a leader, a barrier through it, and all replicas equal
+		agree := false
+		for k := 0; k < 150 && !agree; k++ {
+			time.Sleep(40 * time.Millisecond)
+			if ckLeaderOf(d.multi, 20*time.Second) < 0 {
+				continue
+			}
+			if d.barrier() != nil {
+				continue
+			}
+			time.Sleep(20 * time.Millisecond)
+			v0 := d.replicaView(d.multi[0])
+			agree = v0 == d.replicaView(d.multi[1]) && v0 == d.replicaView(d.multi[2])
+		}
+		if !agree {
+			d.emit(trace.M{"ev": "disagree", "views": []string{d.replicaView(d.multi[0]), d.replicaView(d.multi[1]), d.replicaView(d.multi[2])}})
+			d.count("replica_disagreements")
+			return nil
+		}
+		d.obs("deliver")
+	}
+	return nil
+}
+
+// applyDirect executes source entry i on a plain store (the source cluster's own state machine).
+func (d *syDrv) applyDirect(kv *node.KVStore, i int) {
+	ts := d.baseTs + int64(i)*1000
+	switch d.kinds[i-1] {
+	case "incr":
+		kv.Incr(ts, []byte("t:cnt"))
+	case "lpush":
+		kv.LPush(ts, []byte("t:lst"), []byte(strconv.Itoa(i)))
+	case "set":
+		kv.KVSet(ts, []byte("t:k"+strconv.Itoa(d.keys[i-1])), []byte("s"+strconv.Itoa(i)))
+	case "append":
+		kv.Append(ts, []byte("t:str"), []byte(syToken(i, d.sizes[i-1]-len(syToken(i, 0)))))
+	}
+}
+
+// remoteSnapOk: the source cluster has compacted its log; the sender ships a snapshot instead: a
+// checkpoint of the source's data as of entry idx (ahead of the synced position), announced with
+// NotifyTransferSnap (fetched through the local copy path) and applied with NotifyApplySnap.
+func (d *syDrv) remoteSnapOk() {
+	s := d.synced()
+	if s+8 > d.n || d.snapFailed {
+		return
+	}
+	idx := s + 2 + d.rng.Intn(5)
+	term := d.terms[idx-1]
+	srcDir := filepath.Join(d.base, fmt.Sprintf("srcstore%d-%d", d.nseg, d.cnt["remote_snapshots_applied"]))
+	opts := &node.KVOptions{DataDir: srcDir, EngType: rockredis.EngType, ExpirationPolicy: common.WaitCompact, DataVersion: common.ValueHeaderV1}
+	opts.RockOpts.EngineType = d.eng
+	src, err := node.NewKVStore(opts)
+	if err != nil {
+		return
+	}
+	for i := 1; i <= idx; i++ {
+		d.applyDirect(src, i)
+	}
+	bi := src.Backup(term, uint64(idx))
+	if bi == nil {
+		src.Close()
+		return
+	}
+	bi.WaitReady()
+	_, berr := bi.GetResult()
+	src.Close()
+	if berr != nil {
+		return
+	}
+	req := &syncerpb.RaftApplySnapReq{ClusterName: syCluster, RaftGroupName: "default-0", Term: term, Index: uint64(idx),
+		SyncAddr: "", SyncPath: srcDir}
+	code := func(r *syncerpb.RpcErr, err error) int32 {
+		if err != nil {
+			return -1
+		}
+		if r != nil {
+			return r.ErrCode
+		}
+		return 0
+	}
+	d.emit(trace.M{"ev": "snapsend", "i": idx})
+	c1 := code(d.recvServer().NotifyTransferSnap(context.Background(), req))
+	d.barrier()
+	for k := 0; k < 150; k++ {
+		st, err := d.recvServer().GetApplySnapStatus(context.Background(), &syncerpb.RaftApplySnapStatusReq{
+			ClusterName: syCluster, RaftGroupName: "default-0", Term: term, Index: uint64(idx)})
+		if err == nil && st.Status != syncerpb.ApplyWaitingTransfer && st.Status != syncerpb.ApplyWaitingBegin {
+			break
+		}
+		time.Sleep(20 * time.Millisecond)
+	}
+	c2 := code(d.recvServer().NotifyApplySnap(context.Background(), req))
+	d.barrier()
+	d.emit(trace.M{"ev": "snapok", "t": term, "i": idx, "c1": c1, "c2": c2})
+	d.count("remote_snapshots_applied")
+	d.obs("snapok")
+	os.RemoveAll(srcDir)
 }
 
 func (d *syDrv) restart() error {
@@ -416,6 +631,7 @@ func (d *syDrv) startReceiver(snapCount int) error {
 		return err
 	}
 	node.SetSyncerOnly(true)
+	d.snapFailed = false
 	d.emit(trace.M{"ev": "reset", "snapcount": snapCount, "eng": d.eng})
 	d.stopPoll = make(chan struct{})
 	d.pollWg.Add(1)
@@ -497,7 +713,12 @@ func (d *syDrv) randomSequence(steps int) error {
 		case c < 89:
 			d.forceSnapshot()
 		case c < 93:
-			d.remoteSnapFail()
+			// one kind of remote snapshot per receiver (a failed one blocks later ones for minutes)
+			if d.nseg%2 == 0 {
+				d.remoteSnapFail()
+			} else {
+				d.remoteSnapOk()
+			}
 		default:
 			if !d.restarts {
 				continue
@@ -579,6 +800,8 @@ func syncsim(args []string) error {
 	seed := fs.Int64("seed", 1, "")
 	nsrc := fs.Int("n", 80, "length of the source log")
 	perRecv := fs.Int("per", 6, "TLC behaviours executed per receiver (each on a fresh source cluster name is not possible; a receiver is restarted from scratch)")
+	nmulti := fs.Int("multi", 0, "number of 3-replica receivers driven with leader transfers during pipelined batches (-len rounds each)")
+	mbatch := fs.Int("mbatch", 200, "multi: entries per batch")
 	age := fs.Int("agedays", 0, "raft timestamps of the source entries lie this many days in the past (an old backlog)")
 	restarts := fs.Bool("restarts", true, "restart the receiving raft group from its snapshot now and then")
 	fs.Parse(args)
@@ -598,7 +821,7 @@ func syncsim(args []string) error {
 	if err != nil {
 		return err
 	}
-	d := &syDrv{eng: *et, base: base, rng: rand.New(rand.NewSource(*seed)), tw: tw, cnt: map[string]int{}, restarts: *restarts, ageDays: *age}
+	d := &syDrv{eng: *et, base: base, rng: rand.New(rand.NewSource(*seed)), tw: tw, cnt: map[string]int{}, restarts: *restarts, ageDays: *age, plain: *nmulti > 0}
 	d.makeSource(*nsrc)
 	d.emit(trace.M{"ev": "source", "n": d.n, "kinds": d.kinds, "terms": d.terms, "sizes": d.sizes, "keys": d.keys, "agedays": d.ageDays})
 	failed := 0
@@ -636,6 +859,15 @@ func syncsim(args []string) error {
 			})
 		}
 	}
+	for k := 0; k < *nmulti; k++ {
+		guard(func() error {
+			if err := d.startCluster(); err != nil {
+				return err
+			}
+			return d.multiSequence(*rlen, *mbatch)
+		})
+	}
+	d.stopCluster()
 	for k := 0; k < *nrand; k++ {
 		guard(func() error {
 			if err := d.startReceiver(3 + d.rng.Intn(8)); err != nil {
